@@ -41,6 +41,7 @@ CONSTANTS
   FailSaves,   \* BOOLEAN: the metadata store may reject a save
   Focus,       \* BOOLEAN: while a session is being opened or closed nothing else is scheduled
   Record,      \* BOOLEAN: hist carries predictions (events, projected state) besides the labels
+  Scrapes,     \* BOOLEAN: the metrics endpoint is scraped
   Marking,     \* BOOLEAN: record in marks the interesting situations a behaviour goes through (bin/mkwitness)
   WindAt,      \* the wind-down may start once the schedule has this many steps (0: any time)
   Gaps,        \* subset of {"CloseDuringReopen", "LateWait"}: known findings whose interleavings are explored (see known_findings.json);
@@ -60,6 +61,7 @@ VARIABLES
   tokC, tokE, waits, wpark, timers, cur, rlock, slock, cgen,
   \* ---- threads
   mpc, dcwc, opener, opc, opened, live, foleft, lpart, clo, spc, sv, rpc, dpc, reop,
+  scr, sinfo,  \* the scrape thread ("idle" | "wait": inside Collect, parked in GetVBucketSeqNos); membership read by the last Open
   \* ---- wind-down: the environment stops producing work, pending work completes, a last save flushes
   wind,
   \* ---- (witness generation only) interesting situations this behaviour went through
@@ -71,7 +73,7 @@ envVars  == <<up, slog, wire, store, info, cnt, fo>>
 obsvVars == <<osnap, ouuid, ocatch, oclosed, oendclosed, ocnt>>
 strVars  == <<offs, dirty, flag, rng, open, obsNil, active, balancing, cwc, finClose, finEnd, rebalances, stopped, ctxs>>
 synVars  == <<tokC, tokE, waits, wpark, timers, cur, rlock, slock, cgen>>
-thrVars  == <<mpc, dcwc, opener, opc, opened, live, foleft, lpart, clo, spc, sv, rpc, dpc, reop, wind>>
+thrVars  == <<mpc, dcwc, opener, opc, opened, live, foleft, lpart, clo, spc, sv, rpc, dpc, reop, scr, sinfo, wind>>
 vars     == <<envVars, obsvVars, strVars, synVars, thrVars, marks, emitv, obs, hist>>
 view     == <<envVars, obsvVars, strVars, synVars, thrVars, marks, obs>>
 
@@ -160,7 +162,7 @@ Init ==
   /\ finClose = FALSE /\ finEnd = FALSE /\ rebalances = 0 /\ stopped = FALSE /\ ctxs = <<>>
   /\ tokC = 0 /\ tokE = 0 /\ waits = 0 /\ wpark = <<>> /\ timers = <<>> /\ cur = 0
   /\ rlock = FALSE /\ slock = {} /\ cgen = 0
-  /\ mpc = "off" /\ dcwc = FALSE /\ opener = "none" /\ opc = "none" /\ opened = {} /\ live = {} /\ foleft = 0 /\ lpart = FALSE
+  /\ mpc = "off" /\ dcwc = FALSE /\ opener = "none" /\ opc = "none" /\ opened = {} /\ live = {} /\ foleft = 0 /\ lpart = FALSE /\ scr = "idle" /\ sinfo = Info0
   /\ clo = NoClose
   /\ spc = [t \in SaveThreads |-> "idle"] /\ sv = [t \in SaveThreads |-> SaverInit]
   /\ rpc = [t \in RbThreads |-> "idle"] /\ dpc = [v \in VB |-> "idle"] /\ reop = {}
@@ -211,7 +213,7 @@ OpenBegin(who) ==
   /\ opener' = who /\ opc' = "load" /\ opened' = {}
   /\ finClose' = FALSE /\ finEnd' = FALSE
   /\ rng' = RangeOf(info) /\ active' = Cardinality(RangeOfSet(info))
-  /\ cgen' = cgen + 1
+  /\ cgen' = cgen + 1 /\ sinfo' = info
 
 \* Boot: the process starts; dcp.Start runs into stream.Open up to metadata.Load
 Boot ==
@@ -226,7 +228,7 @@ Boot ==
   /\ rlock' = FALSE /\ slock' = {}
   /\ foleft' = 0 /\ lpart' = FALSE /\ clo' = NoClose /\ live' = {}
   /\ spc' = [t \in SaveThreads |-> "idle"] /\ sv' = [t \in SaveThreads |-> SaverInit]
-  /\ rpc' = [t \in RbThreads |-> "idle"] /\ dpc' = [v \in VB |-> "idle"] /\ reop' = {}
+  /\ rpc' = [t \in RbThreads |-> "idle"] /\ dpc' = [v \in VB |-> "idle"] /\ reop' = {} /\ scr' = "idle"
   /\ wire' = [v \in VB |-> <<>>]
   /\ Emit(<<[ev |-> "Boot", auto |-> AutoCkpt, finite |-> Finite, member |-> info[1], total |-> info[2]]>> \o OpenBeginEvs)
   /\ UNCHANGED <<slog, fo, store, info, cnt>>
@@ -238,7 +240,7 @@ LoadRet(ok, part) ==
   /\ (~ok => cnt.fail < MaxFail /\ EnvOK)
   /\ (part => ok /\ MaxFail > 0 /\ EnvOK)      \* a file-like backend: returns only the vBuckets it has a document for
   /\ lpart' = part
-  /\ UNCHANGED <<slog, fo, wire, store, info, obsvVars, strVars, synVars, dcwc, opener, opened, live, foleft, clo, spc, sv, rpc, dpc, reop>>
+  /\ UNCHANGED <<slog, fo, wire, store, info, obsvVars, strVars, synVars, dcwc, opener, opened, live, foleft, clo, spc, sv, rpc, dpc, reop, scr, sinfo>>
   /\ IF ok THEN /\ opc' = "seqnos" /\ Emit(<<[ev |-> "SeqNosReq"]>>) /\ UNCHANGED <<up, mpc, cnt>>
      ELSE /\ opc' = "none" /\ cnt' = [cnt EXCEPT !.fail = @ + 1] /\ Die(<<[ev |-> "Fail", what |-> "Load"]>>)
 
@@ -253,11 +255,14 @@ PartialLoad == lpart /\ Exists /\ \E v \in RangeSet : store[v] = NoOff
 Ahead == ~LatestBranch /\ \E v \in RangeSet : store[v] # NoOff /\ store[v].seq > HighOf(v)
 
 \* observers are created and one goroutine per vb reaches client.OpenStream (l.251-263)
-SeqNosEv(ok) == [ev |-> "SeqNos", ok |-> ok, high |-> [v \in VB |-> HighOf(v)], latest |-> AutoReset = "latest", partial |-> lpart]
+SeqNosEvS(ok, scrape) == [ev |-> "SeqNos", ok |-> ok, high |-> [v \in VB |-> HighOf(v)], latest |-> AutoReset = "latest",
+                           partial |-> lpart, scrape |-> scrape]
+SeqNosEv(ok) == SeqNosEvS(ok, FALSE)
 StartOpening(pre) ==
   /\ opc' = "opening"
   /\ ObsReset /\ obsNil' = FALSE
   /\ live' = {}      \* streams of an earlier session deliver to their own (closed) observers: no longer modelled
+  /\ dpc' = [v \in VB |-> IF dpc[v] = "idle" THEN "idle" ELSE "stale"]    \* a delivery still held by the consumer belongs to an old observer
   /\ Emit(pre \o [i \in 1..Cardinality(RangeSet) |->
              LET v == rng[1] + i - 1 IN [ev |-> "OpenReq", vb |-> v, off |-> offs'[v], end |-> EndOf(v)]])
 
@@ -268,7 +273,7 @@ SeqNosRet(ok) ==
   /\ up /\ opc = "seqnos" /\ Prompt
   /\ (~ok => cnt.fail < MaxFail /\ EnvOK)
   /\ UNCHANGED <<slog, fo, wire, store, info, rng, open, active, balancing, cwc, finClose, finEnd, rebalances, stopped,
-                 ctxs, synVars, dcwc, opener, opened, clo, spc, rpc, dpc, reop>>
+                 ctxs, synVars, dcwc, opener, opened, clo, spc, rpc, reop, scr, sinfo>>
   /\ IF ~ok THEN /\ opc' = "none" /\ cnt' = [cnt EXCEPT !.fail = @ + 1] /\ Die(<<SeqNosEv(FALSE)>>)
                  /\ UNCHANGED <<obsvVars, offs, dirty, flag, obsNil, foleft, lpart, live, sv>>
      ELSE IF Ahead \/ PartialLoad                      \* checkpoint beyond the high seqno / missing checkpoint entry: panic
@@ -276,7 +281,7 @@ SeqNosRet(ok) ==
      ELSE /\ UNCHANGED <<up, mpc, cnt>>
           /\ IF LatestBranch          \* the maps are installed only when Load returns, after the failover-log queries
              THEN /\ opc' = "folog" /\ foleft' = Cardinality(RangeSet) /\ Emit(<<SeqNosEv(TRUE)>>)
-                  /\ UNCHANGED <<obsvVars, obsNil, live, offs, dirty, flag, sv>>
+                  /\ UNCHANGED <<obsvVars, obsNil, live, offs, dirty, flag, sv, dpc>>
              ELSE /\ offs' = [v \in VB |-> IF InRange(v) THEN LoadedOff(v) ELSE NoOff]
                   /\ dirty' = {} /\ flag' = FALSE /\ sv' = Frozen(TRUE, TRUE)
                   /\ StartOpening(<<SeqNosEv(TRUE)>>) /\ UNCHANGED foleft
@@ -288,7 +293,7 @@ FoLogRet(ok) ==
   /\ up /\ opc = "folog" /\ foleft > 0 /\ Prompt
   /\ (~ok => cnt.fail < MaxFail /\ EnvOK)
   /\ UNCHANGED <<slog, fo, wire, store, info, rng, open, active, balancing, cwc, finClose, finEnd,
-                 rebalances, stopped, ctxs, synVars, dcwc, opener, opened, clo, spc, rpc, dpc, reop>>
+                 rebalances, stopped, ctxs, synVars, dcwc, opener, opened, clo, spc, rpc, reop, scr, sinfo>>
   /\ IF ~ok THEN /\ opc' = "none" /\ cnt' = [cnt EXCEPT !.fail = @ + 1] /\ Die(<<[ev |-> "Fail", what |-> "FoLog"]>>)
                  /\ UNCHANGED <<obsvVars, obsNil, foleft, lpart, live, offs, dirty, flag, sv>>
      ELSE /\ UNCHANGED <<up, mpc, cnt>>
@@ -298,7 +303,7 @@ FoLogRet(ok) ==
                   /\ dirty' = {v \in RangeSet : HighOf(v) # 0}
                   /\ flag' = (\E v \in RangeSet : HighOf(v) # 0) /\ sv' = Frozen(TRUE, TRUE)
                   /\ StartOpening(<<>>)
-             ELSE /\ Emit(<<>>) /\ UNCHANGED <<opc, obsvVars, obsNil, live, offs, dirty, flag, sv>>
+             ELSE /\ Emit(<<>>) /\ UNCHANGED <<opc, obsvVars, obsNil, live, offs, dirty, flag, sv, dpc>>
 
 \* the last stream is open: rest of Open (l.265-271) and, for the timer goroutine, of rebalance (l.318-322)
 OpenRetEv(v, ok, rb, f) == [ev |-> "OpenRet", vb |-> v, ok |-> ok, uuid |-> IF ok THEN fo[v] ELSE 0,
@@ -324,7 +329,7 @@ OpenRet(v, res, r) ==
   /\ (res = "rb" => Rollbacks /\ r <= offs[v].seq /\ offs[v].seq > 0 /\ EnvOK)
   /\ (res # "rb" => r = 0)
   /\ UNCHANGED <<slog, fo, store, info, osnap, oclosed, oendclosed, ocnt, offs, dirty, flag, rng, obsNil, active, cwc,
-                 finClose, finEnd, stopped, ctxs, timers, cur, slock, cgen, dcwc, foleft, lpart, clo, spc, sv, rpc, dpc, reop>>
+                 finClose, finEnd, stopped, ctxs, timers, cur, slock, cgen, dcwc, foleft, lpart, clo, spc, sv, rpc, dpc, reop, scr, sinfo>>
   /\ IF res = "err"                                   \* openAllStreams: panic in the goroutine
      THEN /\ cnt' = [cnt EXCEPT !.fail = @ + 1] /\ opc' = "none"
           /\ Die(<<OpenRetEv(v, FALSE, FALSE, 0)>>)
@@ -374,7 +379,7 @@ Push(v, x, hold) ==
   /\ x \in NextEvents(v)
   /\ (hold => Hold)
   /\ UNCHANGED <<fo, store, info, cnt, ouuid, oclosed, oendclosed, rng, open, obsNil, active, balancing, cwc, finClose,
-                 finEnd, rebalances, stopped, synVars, dcwc, opener, opc, opened, live, foleft, lpart, clo, spc, sv, rpc, reop>>
+                 finEnd, rebalances, stopped, synVars, dcwc, opener, opc, opened, live, foleft, lpart, clo, spc, sv, rpc, reop, scr, sinfo>>
   /\ IF wire[v] # <<>> THEN wire' = [wire EXCEPT ![v] = Tail(@)] /\ UNCHANGED slog
      ELSE slog' = [slog EXCEPT ![v] = Append(@, x)] /\ UNCHANGED wire
   /\ LET f == Off(ouuid[v], x.q, osnap[v][1], osnap[v][2]) IN
@@ -431,10 +436,10 @@ ConsRet(v) ==
   /\ UNCHANGED wind
   /\ up /\ dpc[v] # "idle" /\ Prompt
   /\ dpc' = [dpc EXCEPT ![v] = "idle"]
-  /\ ocnt' = [ocnt EXCEPT ![v] = Bump(@, dpc[v])]
+  /\ ocnt' = [ocnt EXCEPT ![v] = IF dpc[v] = "stale" THEN @ ELSE Bump(@, dpc[v])]
   /\ Emit(<<PushedEv(v)>>)
   /\ UNCHANGED <<envVars, osnap, ouuid, ocatch, oclosed, oendclosed, strVars, synVars, mpc, dcwc, opener, opc, opened,
-                 live, foleft, lpart, clo, spc, sv, rpc, reop>>
+                 live, foleft, lpart, clo, spc, sv, rpc, reop, scr, sinfo>>
 
 \* the consumer acknowledges the i-th context it was handed (stream.go l.128-131)
 Ack(i) ==
@@ -478,7 +483,7 @@ SaveStart(t) ==
   /\ SaveEnter(t, cgen)
   /\ Emit(SaveEnterEvs(t))
   /\ UNCHANGED <<up, slog, fo, wire, store, info, obsvVars, strVars, synVars, mpc, dcwc, opener, opc, opened, live, foleft, lpart,
-                 clo, rpc, dpc, reop>>
+                 clo, rpc, dpc, reop, scr, sinfo>>
 
 SaveLockBody(t) ==
   IF "F1" \in Bugs
@@ -504,7 +509,7 @@ SaveTake(t) ==
         /\ Emit(<<[ev |-> "SaveBegin", t |-> t, dump |-> om, dirty |-> SortedSeq(dm)]>>)
   /\ flag' = FALSE /\ dirty' = {}
   /\ UNCHANGED <<envVars, obsvVars, offs, rng, open, obsNil, active, balancing, cwc, finClose, finEnd, rebalances, stopped, ctxs,
-                 synVars, mpc, dcwc, opener, opc, opened, live, foleft, lpart, clo, rpc, dpc, reop>>
+                 synVars, mpc, dcwc, opener, opc, opened, live, foleft, lpart, clo, rpc, dpc, reop, scr, sinfo>>
 
 \* the backend makes the checkpoint of one dirty vb durable (one write per dirty vb, any order)
 StoreWrite(t, v) ==
@@ -514,7 +519,7 @@ StoreWrite(t, v) ==
   /\ sv' = [sv EXCEPT ![t].wr = @ \cup {v}]
   /\ Emit(<<[ev |-> "StoreWrite", t |-> t, vb |-> v, off |-> sv[t].dump[v]]>>)
   /\ UNCHANGED <<up, slog, fo, wire, info, cnt, obsvVars, strVars, synVars, mpc, dcwc, opener, opc, opened, live, foleft, lpart, clo,
-                 spc, rpc, dpc, reop>>
+                 spc, rpc, dpc, reop, scr, sinfo>>
 
 Writable(t) == {v \in sv[t].ddirty : sv[t].dump[v] # NoOff}
 
@@ -564,7 +569,7 @@ CloseRet(v) ==
   /\ up /\ clo.on /\ v \in clo.left /\ Prompt
   /\ UNCHANGED <<up, slog, fo, wire, store, info, cnt, osnap, ouuid, ocatch, oclosed, ocnt, flag, rng, active, balancing, cwc,
                  finClose, finEnd, rebalances, stopped, ctxs, rlock, slock, cgen, dcwc, opener, opc, opened, live, foleft, lpart,
-                 spc, dpc, reop>>
+                 spc, dpc, reop, scr, sinfo>>
   /\ IF clo.left = {v}
      THEN CloseTail(clo.who, <<>>)
      ELSE /\ clo' = [clo EXCEPT !.left = @ \ {v}]
@@ -611,14 +616,14 @@ CloseCall ==
   /\ dcwc' = TRUE
   /\ UNCHANGED <<slog, fo, wire, store, info, cnt, osnap, ouuid, ocatch, oendclosed, ocnt, offs, dirty, flag, rng, open, obsNil,
                  active, balancing, finClose, finEnd, rebalances, stopped, ctxs, tokC, tokE, waits, wpark, cur, rlock, slock,
-                 cgen, opener, opc, opened, live, foleft, lpart, rpc, dpc, reop>>
+                 cgen, opener, opc, opened, live, foleft, lpart, rpc, dpc, reop, scr, sinfo>>
   /\ MainCloseBegin(<<[ev |-> "CloseCall"]>>, TRUE)
 
 \* the thread holds the save lock now: flag read; a saver whose flag is down returns (main: goes on with dcp.close)
 SaveAcq(t) ==
   /\ UNCHANGED <<slog, fo, wire, store, info, cnt, osnap, ouuid, ocatch, oendclosed, ocnt, offs, rng, open, obsNil, active,
                  balancing, finClose, finEnd, rebalances, stopped, ctxs, tokC, tokE, waits, wpark, cur, rlock, cgen,
-                 dcwc, opener, opc, opened, live, foleft, lpart, rpc, dpc, reop>>
+                 dcwc, opener, opc, opened, live, foleft, lpart, rpc, dpc, reop, scr, sinfo>>
   /\ IF "F1" \notin Bugs /\ ~flag
      THEN /\ UNCHANGED <<slock, sv, dirty, flag>>
           /\ spc' = [spc EXCEPT ![t] = "idle"]
@@ -638,7 +643,7 @@ SaveLock(t) ==
           /\ "F1" \notin Bugs
           /\ spc' = [spc EXCEPT ![t] = "blocked"]
           /\ Emit(<<>>)
-          /\ UNCHANGED <<envVars, obsvVars, strVars, synVars, mpc, dcwc, opener, opc, opened, live, foleft, lpart, clo, sv, rpc, dpc, reop>>
+          /\ UNCHANGED <<envVars, obsvVars, strVars, synVars, mpc, dcwc, opener, opc, opened, live, foleft, lpart, clo, sv, rpc, dpc, reop, scr, sinfo>>
 
 \* ... and gets the lock as soon as its holder releases it (not a step of the schedule: it happens by itself)
 SaveAcquire(t) ==
@@ -657,7 +662,7 @@ SaveRet(t, ok) ==
   /\ slock' = slock \ {sv[t].gen}
   /\ UNCHANGED <<slog, fo, wire, store, info, cnt, osnap, ouuid, ocatch, oendclosed, ocnt, offs, rng, open, obsNil, active,
                  balancing, finClose, finEnd, rebalances, stopped, ctxs, tokC, tokE, waits, wpark, cur, rlock, cgen,
-                 dcwc, opener, opc, opened, live, foleft, lpart, rpc, dpc, reop>>
+                 dcwc, opener, opc, opened, live, foleft, lpart, rpc, dpc, reop, scr, sinfo>>
   /\ SaveRetBody(t, ok)
   /\ LET evs == <<[ev |-> "SaveEnd", t |-> t, ok |-> ok]>> \o SaveRetEvs(t) IN
      IF t = "main" THEN MainStreamClose(evs, dcwc)
@@ -699,7 +704,7 @@ Notify(t, i) ==
   /\ cnt' = [cnt EXCEPT !.notify = @ + 1]
   /\ UNCHANGED <<up, slog, fo, wire, store, obsvVars, offs, dirty, flag, rng, open, obsNil, active, cwc, finClose, finEnd,
                  rebalances, stopped, ctxs, tokC, tokE, waits, wpark, rlock, slock, cgen, mpc, dcwc, opener, opc, opened,
-                 live, foleft, lpart, clo, spc, sv, dpc, reop>>
+                 live, foleft, lpart, clo, spc, sv, dpc, reop, scr, sinfo>>
   /\ RebalanceEnter(t, timers)
   /\ Emit(<<[ev |-> "Notify", src |-> t, member |-> i[1], total |-> i[2]]>>)
 
@@ -711,7 +716,7 @@ RbLock(t) ==
   /\ rlock' = TRUE
   /\ UNCHANGED <<up, slog, fo, wire, store, info, cnt, osnap, ouuid, ocatch, oendclosed, ocnt, flag, rng, active, finClose,
                  finEnd, rebalances, stopped, ctxs, slock, cgen, mpc, dcwc, opener, opc, opened, live, foleft, lpart, spc, sv, dpc,
-                 reop, offs, dirty, open, obsNil, tokC, tokE, waits, wpark>>
+                 reop, scr, sinfo, offs, dirty, open, obsNil, tokC, tokE, waits, wpark>>
   /\ IF "F5" \in Bugs /\ balancing
      THEN \* l.295: already balancing: no Close, arm another re-open
           /\ rpc' = [rpc EXCEPT ![t] = "idle"]
@@ -734,7 +739,7 @@ CloseEmpty ==
   /\ up /\ clo.on /\ clo.left = {} /\ Prompt
   /\ UNCHANGED <<up, slog, fo, wire, store, info, cnt, osnap, ouuid, ocatch, oclosed, ocnt, flag, rng, active, balancing, cwc,
                  finClose, finEnd, rebalances, stopped, ctxs, rlock, slock, cgen, dcwc, opener, opc, opened, live, foleft, lpart,
-                 spc, dpc, reop>>
+                 spc, dpc, reop, scr, sinfo>>
   /\ CloseTail(clo.who, <<>>)
 
 \* a timer fires
@@ -751,14 +756,14 @@ TimerFire(i) ==
           /\ Emit(<<CB("BeforeRebalanceEnd")>> \o OpenBeginEvs)
           /\ UNCHANGED <<up, slog, fo, wire, store, info, cnt, obsvVars, offs, dirty, flag, open, obsNil, balancing, cwc,
                          rebalances, stopped, ctxs, tokC, tokE, waits, wpark, cur, rlock, slock, mpc, dcwc, live, foleft, lpart,
-                         clo, spc, sv, rpc, dpc, reop>>
+                         clo, spc, sv, rpc, dpc, reop, scr>>
      ELSE \* stream.Rebalance on the timer goroutine (re-armed while a rebalance was in progress)
           /\ rpc["tmr"] = "idle"
           /\ RebalanceEnter("tmr", [timers EXCEPT ![i].st = "fired"])
           /\ Emit(<<>>)
           /\ UNCHANGED <<up, slog, fo, wire, store, info, cnt, obsvVars, offs, dirty, flag, rng, open, obsNil, active, cwc,
                          finClose, finEnd, rebalances, stopped, ctxs, tokC, tokE, waits, wpark, rlock, slock, cgen, mpc, dcwc,
-                         opener, opc, opened, live, foleft, lpart, clo, spc, sv, dpc, reop>>
+                         opener, opc, opened, live, foleft, lpart, clo, spc, sv, dpc, reop, scr, sinfo>>
 
 -----------------------------------------------------------------------------
 (* stream ends (observer.End l.273-282, stream.listenEnd l.190-220)                                   *)
@@ -767,6 +772,7 @@ EndEv(v, c) == [ev |-> "EndSent", vb |-> v, cause |-> c]
 \* the server ends the stream of v with cause c ("closed" follows a CloseStream; "ok" is the clean end)
 End(v, c) ==
   /\ UNCHANGED wind
+  /\ UNCHANGED <<scr, sinfo>>
   /\ up /\ ~Busy /\ v \in live /\ dpc[v] = "idle" /\ v \notin reop /\ wire[v] = <<>>
   /\ (c # "closed" => EnvOK /\ cnt.ends < MaxEnds /\ c \in EndCauses /\ open /\ ~clo.on /\ ~balancing /\ mpc = "running")
   /\ (c = "closed" => (clo.on /\ v \notin clo.left) \/ (obsNil /\ ~open))
@@ -777,7 +783,7 @@ End(v, c) ==
                  finEnd, rebalances, stopped, ctxs, timers, cur, rlock, slock, cgen, mpc, dcwc, opener, opc, opened, foleft, lpart,
                  clo, spc, sv, rpc, dpc>>
   /\ IF oendclosed[v] \/ obsNil
-     THEN /\ Emit(<<EndEv(v, c)>>) /\ UNCHANGED <<active, tokC, tokE, waits, wpark, reop>>
+     THEN /\ Emit(<<EndEv(v, c)>>) /\ UNCHANGED <<active, tokC, tokE, waits, wpark, reop, scr, sinfo>>
      ELSE IF ~cwc /\ c \in TransientCauses
      THEN \* go reopenStream(vb): the goroutine reaches client.OpenStream with the current position
           /\ reop' = reop \cup {v}
@@ -793,6 +799,7 @@ End(v, c) ==
 \* the re-open request of v is answered
 ReopenRet(v, ok) ==
   /\ UNCHANGED wind
+  /\ UNCHANGED <<scr, sinfo>>
   /\ up /\ v \in reop /\ ok /\ Prompt
   \* failing re-opens (1 s back-off, panic after 5) are explored by the C15 fault driver
   /\ reop' = reop \ {v}
@@ -815,7 +822,7 @@ WaitFin(k) ==
   /\ finEnd' = (IF k = "end" THEN TRUE ELSE finEnd)
   /\ UNCHANGED <<slog, fo, wire, store, info, cnt, osnap, ouuid, ocatch, oendclosed, ocnt, offs, dirty, flag, rng, open, obsNil,
                  active, balancing, rebalances, ctxs, tokC, tokE, waits, cur, rlock, slock, cgen, dcwc, opener, opc,
-                 opened, live, foleft, lpart, rpc, dpc, reop>>
+                 opened, live, foleft, lpart, rpc, dpc, reop, scr, sinfo>>
   /\ IF balancing
      THEN /\ Emit(<<>>) /\ UNCHANGED <<up, mpc, stopped, spc, sv, cwc, oclosed, clo, timers>>
      ELSE IF stopped                                 \* close of a closed channel
@@ -826,13 +833,38 @@ WaitFin(k) ==
              ELSE /\ Emit(<<[ev |-> "Stopped"]>>) /\ UNCHANGED <<up, mpc, spc, sv, cwc, oclosed, clo, timers>>
 
 -----------------------------------------------------------------------------
+(* metric.Collect (metric/collector.go l.55-268) called by a scrape thread; GET /states/offset alike               *)
+\* Collect begins: stream closed (observers nil) => returns at once with nothing; else it asks for the high seqnos
+Scrape ==
+  /\ UNCHANGED wind
+  /\ up /\ ~Busy /\ EnvOK /\ scr = "idle" /\ mpc \in {"running", "closed"} /\ cnt.saves + cnt.acks + cnt.notify < 99
+  /\ IF obsNil THEN /\ Emit(<<[ev |-> "Scrape", closed |-> TRUE]>>) /\ UNCHANGED scr
+     ELSE /\ scr' = "wait" /\ Emit(<<[ev |-> "SeqNosReq"]>>)
+  /\ UNCHANGED <<envVars, obsvVars, strVars, synVars, mpc, dcwc, opener, opc, opened, live, foleft, lpart, clo, spc, sv, rpc, dpc, reop, sinfo>>
+
+ScrapeVal ==
+  LET lagOf(v) == IF offs[v] = NoOff THEN 0 ELSE IF HighOf(v) > offs[v].seq THEN HighOf(v) - offs[v].seq ELSE 0
+      RECURSIVE Sum(_)
+      Sum(S) == IF S = {} THEN 0 ELSE LET x == CHOOSE y \in S : TRUE IN lagOf(x) + Sum(S \ {x})
+  IN [ev |-> "Scrape", closed |-> FALSE, pos |-> offs, lag |-> [v \in VB |-> lagOf(v)], total |-> Sum(VB),
+      cnt |-> ocnt, active |-> active, rebalances |-> rebalances, member |-> sinfo[1], totalm |-> sinfo[2],
+      rlo |-> ChunkLo(sinfo[2], sinfo[1]), rhi |-> ChunkHi(sinfo[2], sinfo[1])]
+\* the high seqnos arrive: the rest of Collect runs on what the stream holds NOW
+ScrapeRet ==
+  /\ UNCHANGED wind
+  /\ up /\ Prompt /\ scr = "wait"
+  /\ scr' = "idle"
+  /\ Emit(<<SeqNosEvS(TRUE, TRUE), ScrapeVal>>)
+  /\ UNCHANGED <<envVars, obsvVars, strVars, synVars, mpc, dcwc, opener, opc, opened, live, foleft, lpart, clo, spc, sv, rpc, dpc, reop, sinfo>>
+
+-----------------------------------------------------------------------------
 Crash ==
   /\ UNCHANGED wind
   /\ up /\ EnvOK /\ cnt.crash < MaxCrash /\ mpc = "running" /\ ~Busy
   /\ up' = FALSE /\ mpc' = "off" /\ cnt' = [cnt EXCEPT !.crash = @ + 1]
   /\ Emit(<<[ev |-> "Crash"]>>)
   /\ UNCHANGED <<slog, fo, wire, store, info, obsvVars, strVars, synVars, dcwc, opener, opc, opened, live, foleft, lpart, clo, spc, sv,
-                 rpc, dpc, reop>>
+                 rpc, dpc, reop, scr, sinfo>>
 
 \* the bucket is flushed / recreated while the process is down: the history of v is gone, its checkpoint is not
 Flush(v) ==
@@ -855,6 +887,7 @@ Parked ==
   \cup {t \o "@save.take" : t \in {u \in SaveThreads : spc[u] = "take"}}
   \cup {t \o "@md.Save" : t \in {u \in SaveThreads : spc[u] = "storing"}}
   \cup {"lib:CloseStream:" \o ToString(v) : v \in (IF clo.on THEN clo.left ELSE {})}
+  \cup (IF scr = "wait" THEN {"scr@GetVBucketSeqNos"} ELSE {})
   \cup (IF rpc["api"] = "want" THEN {"api@rb.prelock"} ELSE {})
   \cup (IF LibRb >= 1 THEN {"lib:rb.prelock"} ELSE {})
   \cup (IF LibRb >= 2 THEN {"lib:rb.prelock#2"} ELSE {})
@@ -868,7 +901,7 @@ Parked ==
 StartWind ==
   /\ up /\ Prompt /\ wind = "no" /\ Len(hist) >= WindAt /\ mpc \in {"running", "closed", "finalsave", "closing"}
   /\ wind' = "on" /\ Emit(<<>>)
-  /\ UNCHANGED <<envVars, obsvVars, strVars, synVars, mpc, dcwc, opener, opc, opened, live, foleft, lpart, clo, spc, sv, rpc, dpc, reop>>
+  /\ UNCHANGED <<envVars, obsvVars, strVars, synVars, mpc, dcwc, opener, opc, opened, live, foleft, lpart, clo, spc, sv, rpc, dpc, reop, scr, sinfo>>
 
 \* nothing is parked anywhere, no timer is armed: the run is over; the monitors check the end-of-run obligations
 ArmedTimers == {i \in DOMAIN timers : timers[i].st = "armed"}
@@ -877,7 +910,7 @@ Quiesce ==
   /\ \A t \in SaveThreads : spc[t] = "idle"
   /\ (wind = "on" => mpc # "running")          \* a running client first does its flush save
   /\ wind' = "done" /\ Emit(<<[ev |-> "Quiesced"]>>)
-  /\ UNCHANGED <<envVars, obsvVars, strVars, synVars, mpc, dcwc, opener, opc, opened, live, foleft, lpart, clo, spc, sv, rpc, dpc, reop>>
+  /\ UNCHANGED <<envVars, obsvVars, strVars, synVars, mpc, dcwc, opener, opc, opened, live, foleft, lpart, clo, spc, sv, rpc, dpc, reop, scr, sinfo>>
 
 -----------------------------------------------------------------------------
 Step(l) ==
@@ -906,6 +939,8 @@ Step(l) ==
     [] l.a = "WaitFin"    -> WaitFin(l.k)
     [] l.a = "Crash"      -> Crash
     [] l.a = "Flush"      -> Flush(l.vb)
+    [] l.a = "Scrape"     -> Scrape
+    [] l.a = "ScrapeRet"  -> ScrapeRet
     [] l.a = "StartWind"  -> StartWind
     [] l.a = "Quiesce"    -> Quiesce
 
@@ -914,6 +949,7 @@ MaxTimers == 4
 Life == MaxNotify > 0 \/ MaxEnds > 0 \/ AllowClose
 Labels ==
   [a : {"Boot", "StartWind", "Quiesce"}]
+  \cup (IF Scrapes THEN [a : {"Scrape", "ScrapeRet"}] ELSE {})
   \cup (IF MaxCrash > 0 THEN [a : {"Crash"}] ELSE {})
   \cup (IF MaxCrash > 0 /\ MaxFail > 0 THEN [a : {"Flush"}, vb : VB] ELSE {})
   \cup [a : {"LoadRet"}, ok : IF MaxFail > 0 THEN BOOLEAN ELSE {TRUE}, part : IF MaxFail > 0 THEN BOOLEAN ELSE {FALSE}]
